@@ -130,6 +130,7 @@ type boolSuite struct {
 	joinedP  func(kit.V3) bool // permuted
 	inter    func(kit.V3) bool
 	interP   func(kit.V3) bool
+	aliased  error             // set by a wrapper that found an earlier answer changed
 	opt      func(kit.V3) bool // JoinedSolid.Optimize()
 	optP     func(kit.V3) bool // permuted list optimised
 	sub      func(kit.V3) bool // nil when n < 2
@@ -271,6 +272,9 @@ func (s *boolSuite) run(pts []kit.V3, o *kit.Obs, dup, nested bool) error {
 	nMixed, nIn, nOut := 0, 0, 0
 	for _, p := range pts {
 		mixed, err := s.checkPoint(p)
+		if err == nil {
+			err = s.aliased
+		}
 		if err != nil {
 			return err
 		}
@@ -371,7 +375,18 @@ func checkBool3(c boolCase, o *kit.Obs) error {
 	mux := model3d.NewSolidMux(cp(solids))
 	muxP := model3d.NewSolidMux(cp(permuted))
 	s.muxHas = w(mux)
-	s.muxAll = func(p kit.V3) []bool { return mux.AllContains(m3.C3(p)) }
+	// an answer belongs to the caller: the previous one must read the same after the next query
+	var prevAns, prevCopy []bool
+	s.muxAll = func(p kit.V3) []bool {
+		ans := mux.AllContains(m3.C3(p))
+		for i := range prevAns {
+			if prevAns[i] != prevCopy[i] {
+				s.aliased = fmt.Errorf("SolidMux.AllContains: the answer for an earlier point changed (entry %d) when another point was asked", i)
+			}
+		}
+		prevAns, prevCopy = ans, append([]bool(nil), ans...)
+		return ans
+	}
 	s.muxIter = func(p kit.V3, f func(int)) int { return mux.IterContains(m3.C3(p), f) }
 	s.muxP = func(p kit.V3) []bool { return muxP.AllContains(m3.C3(p)) }
 	if got := mux.Solids(); len(got) != n {
@@ -440,7 +455,18 @@ func checkBool2(c bool2Case, o *kit.Obs) error {
 	mux := model2d.NewSolidMux(cp(solids))
 	muxP := model2d.NewSolidMux(cp(permuted))
 	s.muxHas = w(mux)
-	s.muxAll = func(p kit.V3) []bool { return mux.AllContains(model2d.XY(p[0], p[1])) }
+	// an answer belongs to the caller: the previous one must read the same after the next query
+	var prevAns, prevCopy []bool
+	s.muxAll = func(p kit.V3) []bool {
+		ans := mux.AllContains(model2d.XY(p[0], p[1]))
+		for i := range prevAns {
+			if prevAns[i] != prevCopy[i] {
+				s.aliased = fmt.Errorf("SolidMux.AllContains: the answer for an earlier point changed (entry %d) when another point was asked", i)
+			}
+		}
+		prevAns, prevCopy = ans, append([]bool(nil), ans...)
+		return ans
+	}
 	s.muxIter = func(p kit.V3, f func(int)) int { return mux.IterContains(model2d.XY(p[0], p[1]), f) }
 	s.muxP = func(p kit.V3) []bool { return muxP.AllContains(model2d.XY(p[0], p[1])) }
 	if got := mux.Solids(); len(got) != n {
